@@ -28,6 +28,11 @@ CLAIMED = {
    "DESIGN.md §4 C07",
    "Trusted: completeness argument for the cycle-forming opcode list (stated in the evidence), boundedness of the call stack, anchors derived by data flow from Engine.CompileModule's ensureTermination parameter; the emitted machine code of the check is not inspected.",
    "static: must-pass-through / placement rules over the lowering dispatchers' syntax trees with anchors resolved by SSA data flow"),
+ "C08": ("other",
+   "Static decision of the representation discipline of the Go-side marshalling for every value: per reflect.Kind arm the stored slot has the representation of its wasm type (32-bit results zero-extended), float32 never takes a float64 round trip, slot counts (v128 = 2) are the only stack-sizing source in the engines, signature kinds = marshalling arms, api.Encode*/Decode* are bit-preserving (SSA conversion chains). Each violated obligation gives a value that does not arrive bit for bit. The generated trampolines/preambles are not inspected.",
+   "DESIGN.md §4 C08",
+   "Trusted: reflect's documented truncation of SetInt/SetUint to the kind's width and bit-preserving Convert between float32 kinds (Go ≥ 1.15); idioms recognised are the switch-over-reflect.Kind forms used by the repository, anything else is undecided, not a pass.",
+   "static: representation/width lint over typed syntax (go/types) and SSA conversion chains"),
 }
 
 NOT_APPLICABLE = {
